@@ -70,7 +70,20 @@ func c16hitEncD(hit bool, rec *rendering.HitRecord) string {
 	return "true " + F(rec.Distance)
 }
 
+// Known finding C16-bvh-point-range, replayed on the real code on every run: the slab test rejects every range of a single
+// point (tMax <= tMin), so a BVH node misses a hit at exactly min = max that HitList.Hit reports.  The driver evaluates
+// "BVH answer = HitList answer" on the two implementation answers (false on the pinned tree; theorem bvh_differs_on_point_range).
+func (c *Ctx) c16pointRangeWitness() {
+	sp := rendering.NewSphere(vector3.New(0., 0., 0.), 1, nil)
+	ray := rendering.NewTemporalRay(vector3.New(0., 0., -5.), vector3.New(0., 0., 1.), 0)
+	rL, rB := rendering.NewHitRecord(), rendering.NewHitRecord()
+	hL := rendering.HitList{sp}.Hit(&ray, 4, 4, rL)
+	hB := rendering.NewBVHTree([]rendering.Hittable{sp}, 0, 1, 0, 0).Hit(&ray, 4, 4, rB)
+	c.Emit("c16.holds.bvh_point_range_witness", "unit-sphere-range-4-4 "+B(hB)+" "+F(rB.Distance)+" "+B(hL)+" "+F(rL.Distance), "true")
+}
+
 func runC16Prims(c *Ctx) {
+	c.c16pointRangeWitness()
 	for k := 0; k < c.N; k++ {
 		c.c16primSphere()
 		c.c16primRect()
